@@ -58,6 +58,10 @@ type histServer struct {
 	// counters
 	foundTrue, foundFalse, update3 int
 	lastNotes                      []string // JSON of the notifications of the last transaction
+	// an old server: monitor_cond_since is an "unknown method" (the client falls back to
+	// monitor_cond), and only condAllowed monitor_cond requests are accepted
+	oldServer   bool
+	condAllowed int
 }
 
 func newHistServer(m *dyn.Model, path string, p *prng.R) (*histServer, error) {
@@ -224,6 +228,17 @@ func (h *histServer) monitor(c *rpc2.Client, method string, args []json.RawMessa
 	}
 	h.mu.Lock()
 	defer h.mu.Unlock()
+	if h.oldServer {
+		switch method {
+		case "monitor_cond_since":
+			return fmt.Errorf("unknown method")
+		case "monitor_cond":
+			if h.condAllowed <= 0 {
+				return fmt.Errorf("monitor refused")
+			}
+			h.condAllowed--
+		}
+	}
 	cur := h.hist[len(h.hist)-1]
 	if method == "monitor_cond_since" {
 		for _, e := range h.hist {
